@@ -2,7 +2,7 @@
    refines R's cp -r (graft) as a finite map, with explicit fuel: more than the depth of the source suffices. *)
 From Coq Require Import List ZArith Bool Lia Arith FinFun.
 Import ListNotations.
-From GU Require Import C06.Model C06.Proofs C06.ProofsWf C06.Vfs C06.ProofsVfsRm C06.ProofsVfsCopy.
+From GU Require Import C06.Model C06.Facts C06.Proofs C06.ProofsWf C06.Vfs C06.ProofsVfsRm C06.ProofsVfsCopy.
 Local Open Scope Z_scope.
 
 Local Arguments m_exists : simpl never.
@@ -32,21 +32,21 @@ Definition clash_free (t : tree) (x T : path) : Prop :=
     match find_entry t (T ++ r), e with Some (F _), D | Some D, F _ => False | _, _ => True end.
 
 (* the body of copyFolder, as it appears inside m_copy (S f) *)
-Definition cf_body (f : nat) (t : tree) (x T : path) (h0 : nat) : option (res * tree * nat) :=
+Definition cf_body (fa : facts) (f : nat) (t : tree) (x T : path) (h : hs) (hm : nat) : option (res * tree * hs) :=
   let '(r2, t2, hm2) := m_mkdir3 t T in
   match r2 with
-  | ROk => if m_empty_b t2 x then Some (ROk, t2, (h0 + hm2 + 1)%nat)
-           else copy_children (fun t0 c => m_copy f t0 c false T false) x (b_readdirnames t2 x) t2 (h0 + hm2 + 2)%nat
-  | r => Some (r, t2, (h0 + hm2)%nat)
+  | ROk => if m_empty_b t2 x then Some (ROk, t2, h +h hb (hm + hm2 + 1))
+           else copy_children (fun t0 c => m_copy fa f t0 c false T false) x (b_readdirnames t2 x) t2 (h +h hb (hm + hm2 + 2))
+  | r => Some (r, t2, h +h hb (hm + hm2))
   end.
 
 (* the specification of one inner call Copy(x, dst0) with dst0 an existing directory *)
-Definition inner_ok (f : nat) : Prop :=
+Definition inner_ok (fa : facts) (f : nat) : Prop :=
   forall t x dst0,
     wf t -> x <> [] -> exists_ t x = true -> is_dir t dst0 = true ->
     let T := dst0 ++ [base x] in
     is_prefix x T = false -> is_prefix T x = false -> clash_free t x T -> shallow t x f ->
-    exists t'' h, m_copy f t x false dst0 false = Some (ROk, t'', h) /\ wf t'' /\ copied t t'' x T.
+    exists t'' h, m_copy fa f t x false dst0 false = Some (ROk, t'', h) /\ wf t'' /\ copied t t'' x T.
 
 Lemma incomparable_child x T n : is_prefix x T = false -> is_prefix T x = false ->
   is_prefix (x ++ [n]) (T ++ [n]) = false /\ is_prefix (T ++ [n]) (x ++ [n]) = false.
@@ -97,11 +97,11 @@ Record loop_inv (t2 ti : tree) (x T : path) (done : list name) : Prop := {
   li_T : find_entry ti T = Some D
 }.
 
-Lemma loop_ok f x T t2 : inner_ok f ->
+Lemma loop_ok fa f x T t2 : inner_ok fa f ->
   wf t2 -> x <> [] -> T <> [] -> find_entry t2 T = Some D ->
   is_prefix x T = false -> is_prefix T x = false -> clash_free t2 x T -> shallow t2 x (S f) ->
   forall ns done ti h, loop_inv t2 ti x T done -> (forall n, In n ns -> exists_ t2 (x ++ [n]) = true) ->
-  exists t'' h', copy_children (fun t0 c => m_copy f t0 c false T false) x ns ti h = Some (ROk, t'', h')
+  exists t'' h', copy_children (fun t0 c => m_copy fa f t0 c false T false) x ns ti h = Some (ROk, t'', h')
                  /\ loop_inv t2 t'' x T (rev ns ++ done).
 Proof.
   intros IHf W2 Hx HT FT P1 P2 NC Sh. induction ns as [|n ns IH]; intros done ti h Inv Hns.
@@ -128,7 +128,7 @@ Proof.
       rewrite SrcSame in Fq. specialize (Sh (x ++ n :: r) (is_prefix_app x (n :: r)) Fq).
       rewrite !app_length in *. simpl in *. lia.
     + rewrite Bx in *. rewrite E1.
-      destruct (IH (n :: done) t1 (h + h1)%nat) as [t'' [h' [E2 Inv2]]].
+      destruct (IH (n :: done) t1 (h +h h1)) as [t'' [h' [E2 Inv2]]].
       * split; auto.
         -- intros q Pq. rewrite (C1 q), (not_prefix_snoc _ _ _ Pq). now apply Fr.
         -- intros m r Hm. rewrite (C1 (T ++ m :: r)), prefix_snoc_cons.
@@ -177,10 +177,10 @@ Proof.
   destruct (anc_parent _ _ A) as [->|A']; auto. apply (wf_anc_dir t (parent T)); auto using is_dir_exists'.
 Qed.
 
-Lemma cf_body_ok f t x T h0 : inner_ok f ->
+Lemma cf_body_ok fa f t x T h0 hm0 : inner_ok fa f ->
   wf t -> x <> [] -> find_entry t x = Some D -> T <> [] -> is_dir t (parent T) = true ->
   is_prefix x T = false -> is_prefix T x = false -> clash_free t x T -> shallow t x (S f) ->
-  exists t'' h, cf_body f t x T h0 = Some (ROk, t'', h) /\ wf t'' /\ copied t t'' x T.
+  exists t'' h, cf_body fa f t x T h0 hm0 = Some (ROk, t'', h) /\ wf t'' /\ copied t t'' x T.
 Proof.
   intros IHf W Hx Fx HT Pd P1 P2 NC Sh.
   assert (Tf : through_file t T = false) by now apply through_file_of_dir_parent.
@@ -202,9 +202,9 @@ Proof.
   { intros q Pq Fq. apply Sh; auto. apply is_prefix_spec in Pq as [r ->]. now rewrite <- SrcSame. }
   assert (Fx2 : find_entry t2 x = Some D) by (rewrite <- (app_nil_r x), SrcSame, app_nil_r; exact Fx).
   assert (Init : loop_inv t2 t2 x T []) by (split; auto; intros; contradiction).
-  assert (Loop : exists t'' h, copy_children (fun t0 c => m_copy f t0 c false T false) x (children t2 x) t2 (h0 + hm + 2)%nat
+  assert (Loop : exists t'' h, copy_children (fun t0 c => m_copy fa f t0 c false T false) x (children t2 x) t2 (h0 +h hb (hm0 + hm + 2))
                                = Some (ROk, t'', h) /\ loop_inv t2 t'' x T (rev (children t2 x) ++ [])).
-  { apply (loop_ok f x T t2); auto. intros n Hn. now apply children_exists. }
+  { apply (loop_ok fa f x T t2); auto. intros n Hn. now apply children_exists. }
   (* from the invariant at the end of the loop to the specification *)
   assert (Fin : forall t'', loop_inv t2 t'' x T (rev (children t2 x) ++ []) -> wf t'' /\ copied t t'' x T).
   { intros t'' [Wi Fr Dn Td Ti]. split; auto. intros q.
@@ -223,14 +223,15 @@ Proof.
     - rewrite (Fr q Pq). apply Same. intros ->. rewrite is_prefix_refl in Pq. discriminate. }
   rewrite (m_empty_b_dir' t2 x) by (rewrite lookup_nonroot; auto). unfold b_readdirnames.
   destruct (children t2 x) as [|n ns] eqn:Ch.
-  - exists t2, (h0 + hm + 1)%nat. split; [reflexivity|]. apply Fin. exact Init.
+  - exists t2, (h0 +h hb (hm0 + hm + 1)). split; [reflexivity|]. apply Fin. exact Init.
   - destruct Loop as [t'' [h [E Inv]]]. exists t'', h. split; [exact E|]. apply Fin. exact Inv.
 Qed.
 
 (* ---------- every inner call, by induction on the fuel ---------- *)
 
-Lemma inner_all f : inner_ok f.
+Lemma inner_all fa f : copy_ok fa = true -> inner_ok fa f.
 Proof.
+  intros OK. pose proof OK as OK'. facts_literal fa OK.
   induction f as [|f IHf]; intros t x dst0 W Hx Ex Dd T P1 P2 NC Sh.
   - exfalso. specialize (Sh x (is_prefix_refl x)). unfold exists_ in Ex. rewrite lookup_nonroot in Ex by auto.
     destruct (find_entry t x); [|discriminate]. specialize (Sh ltac:(discriminate)). lia.
@@ -264,7 +265,7 @@ Proof.
       * now rewrite (is_prefix_false_neq _ _ Pq).
     + (* a directory *)
       assert (Dx : is_dir t x = true) by (rewrite is_dir_nonroot, Fx; auto). rewrite Dx.
-      apply (cf_body_ok f t x T _ IHf); auto.
+      apply (cf_body_ok _ f t x T _ _ IHf); auto.
 Qed.
 
 (* ---------- fuel: the depth of a well-formed tree is at most its number of entries ---------- *)
